@@ -110,7 +110,7 @@ pub fn oracle(ctx: &mut Ctx, c: &Case) -> Check {
 }
 
 pub fn run(ctx: &mut Ctx) {
-    let (k_fwd, k_conv, maxlen) = ctx.pick((160u32, 120u32, 2usize), (6000u32, 4000u32, 3usize));
+    let (k_fwd, k_conv, maxlen) = ctx.pick((800u32, 600u32, 2usize), (12000u32, 8000u32, 3usize));
     for kind in KINDS {
         ctx.stage(&format!("forward:{}", kind));
         let s = boxes::strategy(kind, maxlen).prop_map(|spec| Case { spec, muts: vec![], mode: 0 });
